@@ -278,6 +278,59 @@ theorem zh_cross_midnight_witness :
 example : mergeDateAndTimePeriods ⟨⟨2020, 2, 1⟩, 0⟩ ⟨⟨2020, 2, 1⟩, 0⟩ (Py.ofString "2020-02-01") (Py.ofString "TAF")
     ⟨⟨2020, 1, 31⟩, 43200⟩ ⟨⟨2020, 1, 31⟩, 57600⟩ = .noResult := by decide +kernel
 
+/-! ### the repaired variants (findings/zhtp/*.diff; the harness probes which variant the tree follows) -/
+
+/-- after the repair of `zh-timeperiod-empty-span` the TIMEX of a time range is a consistent triple for EVERY pair of
+admissible clock times (equal ones included: `(T13,T13,PT0H)`), and unchanged wherever the code was right -/
+theorem zh_time_period_fixed_triple_ok (l r : TR) (hl : l.ok) (hr : r.ok) :
+    tripleOK (triple (buildTimex l) (buildTimex r) (if buildSpan l r = [80, 84] then [80, 84, 48, 72] else buildSpan l r))
+      (some (fmtSecs (secsOf l))) (some (fmtSecs (secsOf r))) = true ∧
+    (secsOf l ≠ secsOf r → (if buildSpan l r = [80, 84] then [80, 84, 48, 72] else buildSpan l r) = buildSpan l r) := by
+  by_cases he : secsOf l = secsOf r
+  · have e := (time_triple_empty l r hl hr he).1
+    refine ⟨?_, fun h => absurd he h⟩
+    rw [if_pos e]
+    have pl := buildTimex_parse l hl
+    have pr := buildTimex_parse r hr
+    have pt : ptSeconds (([48, 72] : Str).length + 4) [48, 72] = some (0, 1) := by decide
+    have key := tripleOK_PT (buildTimex l) (buildTimex r) [48, 72] _ _ (fmtSecs (secsOf l)) (fmtSecs (secsOf r))
+      pl.2 pr.2 (by intro c hc; simp at hc; omega) pl.1 pr.1 rfl rfl 0 pt (by simp)
+      (by unfold diffSeconds; simp only; rw [he]; simp)
+    simpa [triple] using key
+  · have ne : buildSpan l r ≠ [80, 84] := by
+      rw [buildSpan_eq l r hl hr]
+      have lt := spanSecs_lt l r
+      have ll := secsOf_lt l hl
+      have lr := secsOf_lt r hr
+      have pos : 0 < spanSecs l r := by unfold spanSecs; omega
+      intro h
+      have := ptSeconds_luisTimeSpan (spanSecs l r) 0
+      have h2 : (luisTimeSpan (spanSecs l r)).drop 2 = [] := by rw [h]; rfl
+      rw [h2] at this
+      simp [ptSeconds] at this
+      omega
+    rw [if_neg ne]
+    exact ⟨time_triple_ok l r hl hr he, fun _ => rfl⟩
+
+theorem zh_fixed_variants_examples :
+    parseTimePeriodFixed (parsedTime 1 (-1) (-1) (some (some 12))) (parsedTime 13 (-1) (-1) none) ⟨⟨2020, 1, 31⟩, 52200⟩ =
+      .ok (Py.ofString "(T13,T13,PT0H)") ⟨⟨2020, 1, 31⟩, 46800⟩ ⟨⟨2020, 1, 31⟩, 46800⟩ ⟨⟨2020, 1, 31⟩, 46800⟩ ⟨⟨2020, 1, 31⟩, 46800⟩ ∧
+    parseTimePeriodFixed (parsedTime 3 (-1) (-1) (some (some 12))) (parsedTime 5 (-1) (-1) none) ⟨⟨2020, 1, 31⟩, 52200⟩ =
+      parseTimePeriod (parsedTime 3 (-1) (-1) (some (some 12))) (parsedTime 5 (-1) (-1) none) ⟨⟨2020, 1, 31⟩, 52200⟩ ∧
+    mergeDateAndTimePeriodsFixed ⟨⟨2020, 1, 31⟩, 0⟩ ⟨⟨2020, 1, 31⟩, 0⟩ (Py.ofString "2020-01-31") (Py.ofString "(T20,T02,PT6H)")
+        ⟨⟨2020, 1, 31⟩, 72000⟩ ⟨⟨2020, 2, 1⟩, 7200⟩ =
+      .ok (Py.ofString "(2020-01-31T20,2020-02-01T02,PT6H)") ⟨⟨2020, 1, 31⟩, 72000⟩ ⟨⟨2020, 2, 1⟩, 7200⟩ ⟨⟨2020, 1, 31⟩, 72000⟩ ⟨⟨2020, 2, 1⟩, 7200⟩ ∧
+    mergeDateAndTimePeriodsFixed ⟨⟨2020, 2, 1⟩, 0⟩ ⟨⟨2020, 2, 1⟩, 0⟩ (Py.ofString "2020-02-01") (Py.ofString "(T15,T17,PT2H)")
+        ⟨⟨2020, 1, 31⟩, 54000⟩ ⟨⟨2020, 1, 31⟩, 61200⟩ =
+      mergeDateAndTimePeriods ⟨⟨2020, 2, 1⟩, 0⟩ ⟨⟨2020, 2, 1⟩, 0⟩ (Py.ofString "2020-02-01") (Py.ofString "(T15,T17,PT2H)")
+        ⟨⟨2020, 1, 31⟩, 54000⟩ ⟨⟨2020, 1, 31⟩, 61200⟩ ∧
+    mergeDateAndTimePeriodsFixed ⟨⟨2020, 5, 1⟩, 0⟩ ⟨⟨2019, 5, 1⟩, 0⟩ (Py.ofString "XXXX-05-01") (Py.ofString "(T20,T02,PT6H)")
+        ⟨⟨2020, 1, 31⟩, 72000⟩ ⟨⟨2020, 2, 1⟩, 7200⟩ =
+      .ok (Py.ofString "(XXXX-05-01T20,XXXX-05-01T02,PT6H)") ⟨⟨2020, 5, 1⟩, 72000⟩ ⟨⟨2020, 5, 1⟩, 7200⟩ ⟨⟨2019, 5, 1⟩, 72000⟩ ⟨⟨2019, 5, 1⟩, 7200⟩ ∧
+    mergeDateAndTimePeriodsFixed ⟨⟨9999, 12, 31⟩, 0⟩ ⟨⟨9999, 12, 31⟩, 0⟩ (Py.ofString "9999-12-31") (Py.ofString "(T20,T02,PT6H)")
+        ⟨⟨9999, 12, 31⟩, 72000⟩ ⟨⟨1, 1, 1⟩, 7200⟩ = .raises := by
+  refine ⟨?_, ?_, ?_, ?_, ?_, ?_⟩ <;> decide +kernel
+
 /-! ## two time points (`merge_two_time_points`) -/
 
 /-- both points carry a date, in order: the values are the two points, the TIMEX is a consistent triple (the Base
@@ -565,22 +618,16 @@ theorem zh_new_year_eve (y : Nat) (h1 : 2 ≤ y) (h2 : y ≤ 9999) :
   rw [this]
   simp [ofOrd_ord _ v0]
 
-/-- **a holiday with a year group, for every key and every year group**: when the function table has the key and the
-computed date exists, the result is definite — TIMEX `YYYY` + the holiday's tail, future = past = that month / day of
-THE YEAR THE CODE READ (`holidayYear`), whatever the reference. -/
-theorem zh_holiday_with_year_definite (R : DateTime) (key : Str) (yi : YearIn) (hy : yi ≠ .absent) (r : Holiday.Res)
-    (h : zhMatch2date R key yi = .ok r) :
-    r.future = r.past ∧ (r.future.y : Int) = (holidayYear R yi).1 ∧ r.future.valid = true ∧
-    r.timex.take 4 = (fmt4 (holidayYear R yi).1).take 4 := by
-  have hy' : (holidayYear R yi).2 = true := by
-    cases yi <;> simp [holidayYear] at hy ⊢
-  unfold zhMatch2date at h
+/-- **a holiday with a year, for every key and every year the year reading produced**: when the function table has the key
+and the computed date exists, the result is definite — TIMEX `YYYY` + the holiday's tail, future = past = that month / day
+of THAT year, whatever the reference. -/
+theorem zh_holiday_with_year_definite (R : DateTime) (key : Str) (year : Int) (r : Holiday.Res)
+    (h : zhMatch2dateY R key (year, true) = .ok r) :
+    r.future = r.past ∧ (r.future.y : Int) = year ∧ r.future.valid = true ∧ r.timex.take 4 = (fmt4 year).take 4 := by
+  unfold zhMatch2dateY at h
   split at h
   · simp at h
-  · generalize hyr : holidayYear R yi = yr at h hy'
-    obtain ⟨year, hasYear⟩ := yr
-    simp only at hy' h
-    subst hy'
+  · simp only at h
     cases hg : Holiday.dictGet holidayTable key with
     | none => simp [hg] at h
     | some f =>
@@ -605,6 +652,13 @@ theorem zh_holiday_with_year_definite (R : DateTime) (key : Str) (yi : YearIn) (
             unfold fmt4; rw [if_pos (by omega), if_pos (by omega)]; simp [pad4]
           rw [List.take_append_of_le_length (by omega)]
       · simp at h
+
+/-- both variants of the year reading say `has_year` exactly when a year group matched, so the statement above applies to
+`zhMatch2date R key yi` / `zhMatch2dateFixed R key yi c` with `year` = what `holidayYear` / `holidayYearFixed` read -/
+theorem zh_holiday_has_year (R : DateTime) (yi : YearIn) (c : Int) (hy : yi ≠ .absent) :
+    (holidayYear R yi).2 = true ∧ (holidayYearFixed R yi c).2 = true ∧
+    zhMatch2date R = fun key yi => zhMatch2dateY R key (holidayYear R yi) := by
+  refine ⟨?_, ?_, rfl⟩ <;> cases yi <;> simp [holidayYear, holidayYearFixed] at hy ⊢
 
 /-- **finding `zh-holiday-year-truncated`**: the last character of the `year` group is always cut off
 (`year_num[0:len(year_num) - 1]` — the cut was written for a group that ends in 年; these groups do not): every four-digit
@@ -635,26 +689,31 @@ theorem zh_holiday_cjk_year_witness :
   rw [if_pos h]
   decide
 
-/-- the SPECIFICATION of the repaired reading (`holidayYearFixed`, findings/zhtp/zh-holiday-year.diff): a four-digit year is
-itself, a two-digit year goes through the 90 / 20 pivot, a Chinese year is its digit-by-digit value; relative and absent
-years are unchanged. -/
+/-- the repaired reading (`holidayYearFixed`, findings/zhtp/zh-holiday-year.diff; the harness probes which variant the tree
+follows): a year of three or four digits is itself, a two-digit year goes through the 90 / 20 pivot, a Chinese year spelled
+digit by digit is its digit-by-digit value; relative and absent years are unchanged. With it 2019年圣诞节 is 2019-12-25 and
+二零一九年国庆节 2019-10-01. -/
 theorem zh_holiday_year_fixed_spec (R : DateTime) :
     (∀ n, 100 ≤ n → (holidayYearFixed R (.digits n) 0).1 = n) ∧
     (∀ n, 90 ≤ n → n < 100 → (holidayYearFixed R (.digits n) 0).1 = 1900 + n) ∧
     (∀ n, 1 ≤ n → n < 20 → (holidayYearFixed R (.digits n) 0).1 = 2000 + n) ∧
-    (∀ w c : Int, 100 ≤ c → (holidayYearFixed R (.cjk w) c).1 = c) ∧
-    (∀ s c, holidayYearFixed R (.rel s) c = holidayYear R (.rel s)) ∧ (∀ c, holidayYearFixed R .absent c = holidayYear R .absent) := by
+    (∀ w c : Int, w < 10 → 100 ≤ c → (holidayYearFixed R (.cjk w) c).1 = c) ∧
+    (∀ s c, holidayYearFixed R (.rel s) c = holidayYear R (.rel s)) ∧ (∀ c, holidayYearFixed R .absent c = holidayYear R .absent) ∧
+    zhMatch2dateFixed ⟨⟨2020, 1, 31⟩, 52200⟩ [22307, 35806, 33410] (.digits 2019) 0 =
+      .ok ⟨Py.ofString "2019-12-25", ⟨2019, 12, 25⟩, ⟨2019, 12, 25⟩⟩ ∧
+    zhMatch2dateFixed ⟨⟨2020, 1, 31⟩, 52200⟩ [22269, 24198, 33410] (.cjk 0) 2019 =
+      .ok ⟨Py.ofString "2019-10-01", ⟨2019, 10, 1⟩, ⟨2019, 10, 1⟩⟩ := by
   have inner : ∀ n : Nat, 1 ≤ n → (if n = 0 then (-1 : Int) else (n : Int)) = (n : Int) := by
     intro n h; rw [if_neg (by omega)]
-  refine ⟨?_, ?_, ?_, ?_, fun _ _ => rfl, fun _ => rfl⟩
+  refine ⟨?_, ?_, ?_, ?_, fun _ _ => rfl, fun _ => rfl, by decide +kernel, by decide +kernel⟩
   · intro n h; unfold holidayYearFixed ZhDT.adjust9020; simp only
     rw [inner n (by omega), if_neg (by omega), if_neg (by omega)]
   · intro n h1 h2; unfold holidayYearFixed ZhDT.adjust9020; simp only
     rw [inner n (by omega), if_pos (by omega)]; omega
   · intro n h1 h2; unfold holidayYearFixed ZhDT.adjust9020; simp only
     rw [inner n (by omega), if_neg (by omega), if_pos (by omega)]; omega
-  · intro w c h; unfold holidayYearFixed ZhDT.adjust9020; simp only
-    rw [if_neg (by omega), if_neg (by omega), if_neg (by omega)]
+  · intro w c hw h; unfold holidayYearFixed ZhDT.adjust9020; simp only
+    rw [if_pos hw, if_neg (by omega), if_neg (by omega), if_neg (by omega)]
 
 /-- a relative year (明年 / 去年 / 今年) is read right: 明年春节 asked in 2020 is 2021-01-01; without a year the future / past
 candidates are the next / latest occurrence (除夕 asked on 2020-01-31: 2020-12-31 / 2019-12-31; 母亲节: 2020-05-10 / 2019-05-12) -/
